@@ -11,6 +11,7 @@ import VsbModel.Model.Walk
 import VsbModel.Model.Config
 import VsbModel.Model.FileReader
 import VsbModel.Model.Restore
+import VsbModel.Model.FsTrace
 
 /-!
 Line-protocol driver for the executable models: one request per line `<op> <json>`, one JSON
@@ -527,6 +528,81 @@ def opRestore (j : Json) : Except String Json := do
   | .err fs => pure (Json.mkObj [("result", "err"), ("fs", fsJson fs)])
   | .done fs ok => pure (Json.mkObj [("result", "done"), ("ok", ok), ("fs", fsJson fs)])
 
+/-! ## traces -/
+def pathJson (p : List String) : Json := Json.arr (p.map Json.str).toArray
+def parsePath (j : Json) : Except String (List String) := do (← j.getArr?).toList.mapM (fun c => c.getStr?)
+
+open Vsb.FsTrace in
+def opJson : Vsb.FsTrace.Op → Json
+  | .lock ok => Json.arr #["lock", ok]
+  | .readdir p => Json.arr #["readdir", pathJson p]
+  | .openRead p => Json.arr #["openRead", pathJson p]
+  | .mkdir p => Json.arr #["mkdir", pathJson p]
+  | .create p => Json.arr #["create", pathJson p]
+  | .write p => Json.arr #["write", pathJson p]
+  | .fsyncFile p => Json.arr #["fsyncFile", pathJson p]
+  | .fsyncDir p => Json.arr #["fsyncDir", pathJson p]
+  | .rename a b => Json.arr #["rename", pathJson a, pathJson b]
+  | .remove p => Json.arr #["remove", pathJson p]
+  | .exit n => Json.arr #["exit", n]
+
+open Vsb.FsTrace in
+def parseOp (j : Json) : Except String Vsb.FsTrace.Op := do
+  let a ← j.getArr?
+  let tag ← (a[0]?.getD Json.null).getStr?
+  let arg := a[1]?.getD Json.null
+  match tag with
+  | "lock" => pure (.lock (← arg.getBool?))
+  | "readdir" => pure (.readdir (← parsePath arg))
+  | "openRead" => pure (.openRead (← parsePath arg))
+  | "mkdir" => pure (.mkdir (← parsePath arg))
+  | "create" => pure (.create (← parsePath arg))
+  | "write" => pure (.write (← parsePath arg))
+  | "fsyncFile" => pure (.fsyncFile (← parsePath arg))
+  | "fsyncDir" => pure (.fsyncDir (← parsePath arg))
+  | "rename" => pure (.rename (← parsePath arg) (← parsePath (a[2]?.getD Json.null)))
+  | "remove" => pure (.remove (← parsePath arg))
+  | "exit" => pure (.exit (← arg.getNat?))
+  | _ => throw "op"
+
+open Vsb.FsTrace in
+/-- `tracecheck`: {ops:[..]} → verdicts of the three monitors on that operation list. -/
+def opTraceCheck (j : Json) : Except String Json := do
+  let ops ← (← (← j.getObjVal? "ops").getArr?).toList.mapM parseOp
+  pure (Json.mkObj [("accept", accept ops), ("orderOk", orderOk ops), ("lockOk", lockOk ops)])
+
+open Vsb.FsTrace in
+/-- `runops`: scenario → the operation list of the model. -/
+def opRunOps (j : Json) : Except String Json := do
+  let str (k : String) : Except String String := do (← j.getObjVal? k).getStr?
+  let paths (k : String) : Except String (List (List String)) := do
+    (← (← j.getObjVal? k).getArr?).toList.mapM parsePath
+  let abandoned ← (← (← j.getObjVal? "abandoned").getArr?).toList.mapM (fun a => do
+    let x ← a.getArr?
+    pure ((← (x[0]?.getD Json.null).getStr?), (← (← (x[1]?.getD Json.null).getArr?).toList.mapM (fun f => f.getStr?))))
+  let old ← (← (← j.getObjVal? "old_groups").getArr?).toList.mapM (fun a => do
+    let x ← a.getArr?
+    pure ((← (x[0]?.getD Json.null).getStr?), (← (← (x[1]?.getD Json.null).getArr?).toList.mapM parsePath)))
+  let group ← str "group"
+  let name ← str "name"
+  let writes1 ← (← (← j.getObjVal? "writes1").getArr?).toList.mapM (fun b => b.getBool?)
+  let writes2 ← (← j.getObjVal? "writes2").getNat?
+  let earlier ← (← (← j.getObjVal? "earlier").getArr?).toList.mapM (fun b => b.getStr?)
+  let l1 ← paths "listing1"
+  let l2 ← paths "listing2"
+  let sc : Scenario :=
+    { group := group
+      newGroup := boolField j "new_group" false
+      abandoned := abandoned
+      name := name
+      writes1 := writes1
+      writes2 := writes2
+      earlier := earlier
+      listing1 := l1
+      listing2 := l2
+      oldGroups := old }
+  pure (Json.arr ((runOps sc).map opJson).toArray)
+
 def dispatch (op : String) (j : Json) : Except String Json :=
   match op with
   | "split" => opSplit j
@@ -540,6 +616,8 @@ def dispatch (op : String) (j : Json) : Except String Json :=
   | "walk" => opWalk j
   | "filereader" => opFileReader j
   | "restore" => opRestore j
+  | "tracecheck" => opTraceCheck j
+  | "runops" => opRunOps j
   | "cfgload" => opCfgload j
   | "cfgpath" => opCfgpath j
   | "verify" => opVerify j
